@@ -175,6 +175,10 @@ def mode_voc(ctx: Ctx, mode: dict) -> tuple[Optional[set], bool]:
     if kind == "source":
         return set(ctx.voc_source), False
     if kind == "shown":
+        # auto-detected output: what the #show statements display; without any #show nothing is declared observable,
+        # only satisfiability (and costs) can be compared
+        if not any(s.ast_type in (ASTType.ShowSignature, ASTType.ShowTerm) for s in ctx.source):
+            return set(), False
         return None, True
     raise ValueError(kind)
 
